@@ -107,14 +107,17 @@ func c08side(c *Ctx) {
 		case "frontend":
 			h := slog.NewSlogHandler(l0, &slog.HandlerOptions{NoColor: true, JSON: f == FJSON, Level: slog.PanicLevel})
 			l0.SetLevel(slog.AlwaysLevel)
-			sl := stdslog.New(h).With("zone", "eu", "svc", "x", "alpha", 1, "svc", "y")
+			sl := stdslog.New(h)
 			// the base logger went through 0-7 further derivation steps; every goroutine derives a logger OF ITS OWN from it
 			// (the per-request pattern) while the others do the same, and uses it: a record carries the attribute of the
 			// logger it went through
-			steps := []int{2, 4, 6, 5, 0, 1, 3, 7}[(idx/4)%8] // (with the first step: 3, 5, 7, 6, 1, 2, 4, 8 entries in the derivation list)
+			steps := []int{0, 2, 4, 0, 6, 0, 5, 3, 1, 7}[(idx/4)%10] // (with the last step: 1, 3, 5, 1, 7, 1, 6, 4, 2, 8 entries in the derivation list: one entry = the shared list itself reaches the formatter; 3, 5-7 = spare capacity behind the list)
 			for i := 0; i < steps; i++ {
 				sl = sl.With(fmt.Sprintf("s%d", i), i)
 			}
+			// the LAST step of the shared base holds attributes that are unsorted and name one key twice: every record without
+			// attributes of its own has to sort and dedupe them - for itself
+			sl = sl.With("zone", "eu", "svc", "x", "alpha", 1, "svc", "y")
 			desc["derivation_steps_of_the_base_logger"] = steps + 1
 			sl2 := sl.With("tail", "t")
 			// one group value shared by all goroutines; it holds a zero Attr (log/slog asks handlers to ignore those)
@@ -160,7 +163,11 @@ func c08side(c *Ctx) {
 					mine := sl.With("req", g)
 					for k := 0; k < N; k++ {
 						id := fmt.Sprintf("g%dk%d;", g, k)
-						switch (g + k) % 4 {
+						sel := (g + k) % 4
+						if k == 0 {
+							sel = 3 // every goroutine starts with a record without attributes through the shared base, all at once
+						}
+						switch sel {
 						case 2:
 							mine.Info("m-"+id, "own", g)
 						case 0:
